@@ -92,6 +92,7 @@ ResultOK ==
       [] op.name = "initagain" -> op.raised = "FileExistsError"
       [] op.name = "has"     -> op.raised = "" /\ KeySet(op.res) = KeySet(op.keys) \cap mapPrev
       [] op.name = "get"     -> op.raised = "" /\ KeySet(op.res) = KeySet(op.keys) \cap mapPrev
+      [] op.name = "meta"    -> op.raised = "" /\ KeySet(op.res) = KeySet(op.keys) \cap mapPrev
       [] op.name = "list"    -> op.raised = "" /\ KeySet(op.res) = mapPrev /\ Len(op.res) = Cardinality(mapPrev)
       [] op.name = "import"  -> /\ op.raised = ""       \* res = source keys mentioned by a correct mapping
                                 /\ KeySet(op.res) \subseteq (KeySet(op.keys) \cap KeySet(op.src))
@@ -100,6 +101,9 @@ ResultOK ==
 
 C02_Views == IsStep => /\ ViewHas /\ ViewGetBulk /\ ViewGetSingle /\ ViewMeta /\ ViewList /\ ViewCount /\ StoreIsMap
 C02_Result == IsStep => ResultOK
+
+(* ---- C08: views through long-open handles (explicit view calls of the history) ---- *)
+C08_HandleViews == (IsStep /\ op.name \in {"has", "get", "meta", "list"}) => ResultOK
 
 (* ---- C03 ---- *)
 C03_IndexOK == IndexOK(O)
